@@ -50,30 +50,31 @@ type frame struct {
 }
 
 type Engine struct {
-	w       *World
-	nfresh  int
-	obls    []*Obligation
-	fi      *FuncInfo // function under verification
-	frames  []frame   // inlining stack; top = current syntactic context
-	old     *State
-	notes   map[string]bool // inlined-leaf:..., trusted:..., etc
-	loopIdx map[ast.Stmt]*types.Var
-	localRefs map[string]bool
-	modifiesOK map[string]bool // ref term strings writable by contract
-	obCount map[string]int
-	pathN   int
-	inLit   int
-	curTags []string
-	callN   int
-	macros  map[string]*Macro
-	idTerms map[string]*Term
-	madeHere map[string]bool
-	baseNames map[string]Value
+	w            *World
+	nfresh       int
+	obls         []*Obligation
+	fi           *FuncInfo // function under verification
+	frames       []frame   // inlining stack; top = current syntactic context
+	old          *State
+	notes        map[string]bool // inlined-leaf:..., trusted:..., etc
+	loopIdx      map[ast.Stmt]*types.Var
+	localRefs    map[string]bool
+	modifiesOK   map[string]bool // ref term strings writable by contract
+	obCount      map[string]int
+	pathN        int
+	inLit        int
+	curTags      []string
+	callN        int
+	macros       map[string]*Macro
+	idTerms      map[string]*Term
+	madeHere     map[string]bool
+	baseNames    map[string]Value
+	selfNames    map[string]Value
 	extraStreams []*Term
 }
 
 func (e *Engine) pkg() *packages.Package { return e.frames[len(e.frames)-1].pkg }
-func (e *Engine) info() *types.Info       { return e.pkg().TypesInfo }
+func (e *Engine) info() *types.Info      { return e.pkg().TypesInfo }
 
 func (e *Engine) typeOf(x ast.Expr) types.Type {
 	tv, ok := e.info().Types[x]
